@@ -151,7 +151,24 @@ func genC16(r *Rng, e *Emitter, n int) {
 			// coordinates just past 65536 ordinates, a power of two, and an odd size
 			ncoord = []int{40001, 32768, 16385}[h]
 		}
-		switch r.Intn(9) {
+		noLayout := h >= 3 && r.chance(1, 25)
+		pick := r.Intn(9)
+		if noLayout {
+			// a geometry without a layout built from a caller's array that does hold numbers (the flat
+			// constructors check nothing): still a value of its own once cloned
+			l, s, pick = geom.NoLayout, 0, 9
+		}
+		switch pick {
+		case 9:
+			kind = "g1"
+			f, cp := r.spareFloats(1 + r.Intn(5))
+			if r.chance(1, 2) {
+				a = &c16geom{kind, geom.NewLineStringFlat(l, f).SetSRID(srid)}
+			} else {
+				a = &c16geom{kind, geom.NewPointFlat(l, f).SetSRID(srid)}
+			}
+			inits = []string{initSlice(cp, sxCoord(f))}
+			e.tally("no-layout-with-ordinates")
 		case 0: // Point
 			kind = "g1"
 			if ncoord == 0 {
@@ -360,6 +377,9 @@ func c16mutate(r *Rng, e *Emitter, kind string, l geom.Layout, o c16obj, last bo
 		choice := r.Intn(6)
 		if last && r.chance(1, 2) {
 			choice = 6
+		}
+		if s == 0 && len(g.FlatCoords()) > 0 {
+			choice = 0 // (stride 0: only direct writes; Reverse and TransformInPlace are for laid-out geometries)
 		}
 		switch choice {
 		case 0:
